@@ -118,6 +118,17 @@ ILLEGAL_NATIVE = {
 UNITS = {"text": ["text"], "onoff": ["onoff"], "datetime": ["datetime"], "num": ["-", "m", "kg", "mm", "°C", "m/s"]}
 STOCK = {"num": "nan", "datetime": "NaT", "onoff": False}
 CUSTOM = {"num": "-1.0", "datetime": "2000-01-01T00:00:00", "onoff": True}
+# custom replacements that are FALSY in Python (0.0, -0.0, False, the epoch): a value, not "nothing"
+CUSTOM0 = {"num": "0.0", "datetime": "1970-01-01T00:00:00", "onoff": False}
+CUSTOMNEG0 = {"num": "-0.0", "datetime": "1970-01-01T00:00:00", "onoff": False}
+REPS = {"strict": STOCK, "lenient": STOCK, "custom": CUSTOM, "custom0": CUSTOM0, "customneg0": CUSTOMNEG0}
+MODEL_FIX = dict(rc.FIXERS,
+                 custom0={"stop": False, "repFloat": "0.0", "repOnoff": False, "repDt": "1970-01-01T00:00:00"},
+                 customneg0={"stop": False, "repFloat": "-0.0", "repOnoff": False, "repDt": "1970-01-01T00:00:00"})
+
+
+def model_op(op, cells, kind):
+    return {"op": op, "cells": grid_to_json(cells), "ext": rc.ext_tables(cells), "fixer": MODEL_FIX[kind]}
 VTYPE = {"num": "float", "datetime": "datetime", "onoff": "onoff"}
 FIXER_KINDS = ["default", "class", "strict", "lenient", "lenient_class", "custom", "custom_class",
                # lenient declared through the PUBLIC interface of a subclass: `stop_on_errors = False` as a class
@@ -125,7 +136,9 @@ FIXER_KINDS = ["default", "class", "strict", "lenient", "lenient_class", "custom
                "attr_class", "attr", "prop_class", "prop",
                # a custom fixer whose fix_missing_rows_in_column_data RETURNS A NEW padded list and leaves the row it
                # was given untouched (its docstring: "should return the entire row"), class and instance
-               "newrow_class", "newrow"]
+               "newrow_class", "newrow",
+               # custom fixers whose replacement values are falsy: 0 (an int) / 0.0 / -0.0, False, the epoch
+               "custom0", "custom0_class", "customneg0"]
 # a custom fixer whose replacements are of a FOREIGN type for the column (the model's FixCfg types replacements as
 # Bool / float token / timestamp token, so this one is judged by the oracle only)
 FOREIGN = {"onoff": None, "datetime": "n/a", "float": "x"}
@@ -134,7 +147,8 @@ MODEL_KIND = {"default": "strict", "class": "strict", "strict": "strict", "lenie
               "attr_class": "lenient", "attr": "lenient", "prop_class": "lenient", "prop": "lenient",
               "newrow_class": "lenient", "newrow": "lenient",
               # an ORDINARY lenient fixer (no test flag): report() prints its summary to stdout / stderr
-              "plain_lenient": "lenient"}
+              "plain_lenient": "lenient",
+              "custom0": "custom0", "custom0_class": "custom0", "customneg0": "customneg0"}
 
 
 # --------------------------------------------------------------------------- fixers
@@ -189,7 +203,17 @@ def fixer_arg(kind):
         f = ParseFixer()
         f.stop_on_errors = False
         return f, lambda: f
-    by_class = {"attr": AttrCls, "prop": PropCls, "newrow": NewRowCls}
+    class Custom0Cls(LenientCls):
+        def fix_illegal_cell_value(self, vtype, value):
+            ParseFixer.fix_illegal_cell_value(self, vtype, value)
+            return {"onoff": False, "datetime": pd.Timestamp("1970-01-01"), "float": 0}.get(vtype, 0.0)
+
+    class CustomNeg0Cls(LenientCls):
+        def fix_illegal_cell_value(self, vtype, value):
+            ParseFixer.fix_illegal_cell_value(self, vtype, value)
+            return {"onoff": False, "datetime": pd.Timestamp("1970-01-01"), "float": -0.0}.get(vtype, -0.0)
+
+    by_class = {"attr": AttrCls, "prop": PropCls, "newrow": NewRowCls, "custom0": Custom0Cls, "customneg0": CustomNeg0Cls}
     if kind in by_class:
         f = by_class[kind]()
         return f, lambda: f
@@ -808,7 +832,7 @@ def judge_stream(sp, out, model_ok, ops, pend):
                         fixer_kind=fk, tracker=tracker, ascii_stdout=sp["ascii_stdout"])
         mk = MODEL_KIND[fk]
         strict = mk == "strict"
-        rep = CUSTOM if mk == "custom" else STOCK
+        rep = REPS[mk]
 
         # defect-free parse of every table, on its own, default reader
         bases = []
@@ -923,15 +947,15 @@ def judge_stream(sp, out, model_ok, ops, pend):
         if model_ok and not has_surrogate(rows) and (sp["n_long"] is None or sp["n_long"] <= 1100):
             if use_text:
                 ops.append({"op": "read_csv_blocks", "text": text, "sep": ";", "to": "pdtable", "filter": None,
-                            "tracker": tracker, "fixer": rc.FIXERS[mk], "ext": rc.ext_tables(rows)})
+                            "tracker": tracker, "fixer": MODEL_FIX[mk], "ext": rc.ext_tables(rows)})
             else:
                 ops.append({"op": "parse_blocks_fx", "rows": grid_to_json(rows), "to": "pdtable", "filter": None,
-                            "tracker": tracker, "fixer": rc.FIXERS[mk], "ext": rc.ext_tables(rows)})
+                            "tracker": tracker, "fixer": MODEL_FIX[mk], "ext": rc.ext_tables(rows)})
             pend.append(("stream", case, impl, grid_to_json(rows) if use_text else None))
             # every table block alone, lenient model run of the same replacement values
             lk = "lenient" if mk == "strict" else mk
             for k, (g, st) in enumerate(zip(bad_grids, starts)):
-                ops.append(rc.model_op("make_table", g, lk))
+                ops.append(model_op("make_table", g, lk))
                 pend.append(("block", dict(case, table=k), impl, (k, st, strict, has_def[k])))
 
 
@@ -1032,12 +1056,13 @@ def workbook_case(seed, idx, out, model_ok, ops, pend, tmpdir):
     sheets, a class gives every sheet its own instance), all three output forms"""
     import openpyxl
     rng = make_rng(seed, f"C13x:{idx}")
-    fk = rng.choice(["default", "strict", "lenient", "lenient", "lenient_class", "custom", "attr_class", "prop"])
+    fk = rng.choice(["default", "strict", "lenient", "lenient", "lenient_class", "custom", "attr_class", "prop", "custom0",
+                     "customneg0"])
     to = ["pdtable", "jsondata", "cellgrid"][idx % 3]
     tracker = rng.choice(["raising", "collecting"])
     mk = MODEL_KIND[fk]
     strict = mk == "strict"
-    rep = CUSTOM if mk == "custom" else STOCK
+    rep = REPS[mk]
     sheets, plan, k = [], [], 0
     for sname in ("One", "Two"):
         rows = []
@@ -1137,14 +1162,14 @@ def workbook_case(seed, idx, out, model_ok, ops, pend, tmpdir):
     if model_ok:
         for sname, _ in sheets:
             ops.append({"op": "parse_blocks_fx", "rows": grid_to_json(xrows[sname]), "to": to, "filter": None,
-                        "tracker": tracker, "fixer": rc.FIXERS[mk], "ext": rc.ext_tables(xrows[sname])})
+                        "tracker": tracker, "fixer": MODEL_FIX[mk], "ext": rc.ext_tables(xrows[sname])})
             pend.append(("sheet", dict(case, sheet=sname), impl, sname))
 
 
 def offset_clash(tab, d, mk):
     """a custom fixer's timestamp (tz-naive) put into a column whose timestamps carry a UTC offset: the frame cannot hold
     both, the table is refused with a located error — assumed of a custom fixer's value: it fits the column"""
-    if mk != "custom" or not tab.get("offset_cols"):
+    if not mk.startswith("custom") or not tab.get("offset_cols"):
         return False
     cells = set(effective_illegal(tab, d)) | set(padded_cells(tab, d))
     return any(j in tab["offset_cols"] for (_, j) in cells)
@@ -1385,7 +1410,7 @@ def foreign_case(seed, idx, out):
 def run(tier, seed, model_ok, translator, search=False):
     out = Outcome()
     out.rule = ("streams of 1-3 well-formed tables (both orientations; text/onoff/datetime/numeric columns; text or "
-                "native cells) x injected defect subsets (illegal cells, duplicate names, short rows) x 14 fixer "
+                "native cells) x injected defect subsets (illegal cells, duplicate names, short rows) x 17 fixer "
                 "configurations x {parse_blocks, read_csv} x {raising, collecting} tracker; each stream compared with "
                 "the Lean model (stream level + every table block alone) and judged by the statement itself. "
                 "Non-trivial: at least one defect injected; distinct by stream content + configuration. Case i is "
